@@ -1,12 +1,14 @@
 #!/bin/bash
 # tools/seedtest.sh <Cxx> "<demo go test command run in the worktree>" <check ids...>
 # Confirms a sub-agent's seeded change in its scratch worktree /tmp/seed/<Cxx> (existing tests
-# pass with it; the demonstration fails with it and passes without it), then applies
-# /tmp/seed/<Cxx>-out/patch.diff to /repo, runs the given checks and restores /repo.
+# pass with it; the demonstration fails with it and passes without it), then runs the given
+# checks against that worktree (VERIF_REPO) from a scratch copy of /verif: /repo is not touched,
+# so this can run next to other checks. SKIPCONFIRM=1 skips the confirmation part.
 ID=$1; DEMO=$2; shift 2
 WT=/tmp/seed/$ID; OUT=/tmp/seed/$ID-out
 export GOFLAGS=-mod=mod GOPROXY=off GOSUMDB=off GOTOOLCHAIN=local
 cd "$WT" || exit 2
+if [ -z "$SKIPCONFIRM" ]; then
 echo "--- existing tests with the change (demonstration files moved aside)"
 mkdir -p /tmp/seed/$ID.aside
 for f in $(git status --porcelain | grep '^??' | awk '{print $2}' | grep '_test.go$'); do mkdir -p "/tmp/seed/$ID.aside/$(dirname $f)"; mv "$f" "/tmp/seed/$ID.aside/$f"; done
@@ -18,12 +20,15 @@ echo "--- demo WITHOUT the change (must pass)"
 git apply -R "$OUT/patch.diff" || { echo "cannot revert the patch in the worktree"; exit 2; }
 ( eval "$DEMO" ) > /tmp/seed/$ID.demo-without.log 2>&1; echo "exit=$?"; tail -2 /tmp/seed/$ID.demo-without.log | cut -c1-200
 git apply "$OUT/patch.diff"
-echo "--- checks against the change"
-cd /repo && git diff --quiet || { echo "/repo dirty"; exit 2; }
-git apply "$OUT/patch.diff" || { echo "patch does not apply to /repo"; exit 2; }
-trap 'git -C /repo checkout -- . >/dev/null 2>&1' EXIT
+fi
+echo "--- checks against the change (scratch copy of /verif, VERIF_REPO=$WT)"
+SV=/tmp/seed/$ID.verif
+mkdir -p "$SV"
+rsync -a --delete --exclude .git --exclude .bin --exclude .overlay --exclude .altmod --exclude evidence --exclude replays /verif/ "$SV/"
+unset GOFLAGS
 for c in "$@"; do
-  out=$(cd /verif && VERIF_NO_EVIDENCE=1 ./run "$c" ${TIER:-quick} 2>&1); rc=$?
+  out=$(cd "$SV" && VERIF_REPO=$WT VERIF_NO_EVIDENCE=1 ./run "$c" ${TIER:-quick} 2>&1); rc=$?
   echo "== $ID vs $c: exit=$rc violations=$(echo "$out" | grep -c '^VIOLATION')"
   echo "$out" | grep -E '^(violation:|INFRA)' | head -${SHOW:-3} | cut -c1-300
 done
+rm -rf "$SV"
